@@ -90,7 +90,7 @@ class DIBGeneric(DIB):
             raise CouldNotParseKNXIP("could not parse DIB header")
 
         dib_length = raw[0]
-        if len(raw) < dib_length:
+        if dib_length < DIB_HEADER_LENGTH or len(raw) < dib_length:
             raise CouldNotParseKNXIP("DIB wrong length")
         try:
             self.dtc = DIBTypeCode(raw[1])
